@@ -34,6 +34,11 @@ CLAIMED = {
         note="Trusted: Lean kernel, harness. Known findings F8, F12, F13 matched by shape. Stream-level surfaces (-m, --edit-config) are compared with the library conversion in C05-C07.",
         design="DESIGN.md section 7 C04",
         technique="Lean 4 proof (decision tables of the conversion model) + model/implementation correspondence + table oracle"),
+    "C09": dict(
+        text="Executable Lean EditorModel (lean/DoviModel/Model/Editor.lean: remove, per-frame operations, scene-cut and active-area range passes in key order, source replacement, encode, duplicate) compared with the real CLI editor (output list and exit status) on generated lists x configs over every operation and boundary range; direct oracles on the real binary: no crash, frame accounting, frame locality, empty config = identity. Lean theorems: empty config keeps every frame, out-of-range / inverted ranges are errors (remove, scene cuts), duplication grows the list by exactly `length`.",
+        note="Trusted: Lean kernel; JSON/compact renderings of the abstract config (glue); the per-frame operations are the M4/M5 model tied in C03/C04/C12.",
+        design="DESIGN.md section 7 C09",
+        technique="Lean 4 proof over the editor model + CLI/model correspondence + direct oracles"),
     "C12": dict(
         text="Lean theorems about the container model (count equals number of blocks after every touching operation, sorting only permutes, add/remove keep the level invariant, absent container is a no-op or an error); the model's result after every operation of random sequences is compared with the real code's JSON, and the invariants (level routing, count, sortedness of the touched container, keyed upsert) are checked on the real code's JSON after every operation.",
         note="Trusted: Lean kernel, harness. Operations are applied through the public Rust API in-process.",
